@@ -208,7 +208,7 @@ func main() {
 			inconc = append(inconc, r.Check+": "+s)
 		}
 		for _, n := range r.Need {
-			if r.Classes[n] == 0 {
+			if r.Classes[n] == 0 && *replay == "" {
 				inconc = append(inconc, fmt.Sprintf("%s: minimum observation %q not reached", r.Check, n))
 			}
 		}
@@ -380,6 +380,9 @@ func runUnit(p Prop, u Unit, scratch, out, tier string, seed int64, replay strin
 	args := []string{"test", "-vet=off", "-overlay=" + ofile, "-tags=verif", "-run=" + u.Run, "-count=1", "-timeout=" + timeout.String()}
 	if u.Race {
 		args = append(args, "-race")
+	}
+	if verbose {
+		args = append(args, "-v")
 	}
 	args = append(args, "./"+u.Pkg)
 	cmd := exec.Command("go", args...)
